@@ -703,8 +703,12 @@ def verify_directory_hash_subcommand(
     # choose the hash format of the latest root directory hash
     if hash_format is None:
         generation = -1
-        # inspect the history and use all documented algorithms as the basis of verification
-        for hash_list in existing_history.hash_lists:
+        # inspect the history (and all nested histories, their directory hashes are compared as well)
+        # and use all documented algorithms as the basis of verification
+        all_hash_lists = []
+        for history in MHLHistory.walk_child_histories(existing_history):
+            all_hash_lists = history.hash_lists + all_hash_lists
+        for hash_list in all_hash_lists:
             if hash_list.generation_number > generation:
                 # add each hash entry's format to the list of formats
                 # (generations created without directory hashes have no root hash at all)
@@ -782,10 +786,11 @@ def verify_directory_hash_subcommand(
                     content_hash = None
                     structure_hash = None
 
+                    # hashes are only calculated for the formats in hash_format_list
                     if content_hash_lookup:
-                        content_hash = content_hash_lookup[directory_hash_entry.hash_format]
+                        content_hash = content_hash_lookup.get(directory_hash_entry.hash_format)
                     if structure_hash_lookup:
-                        structure_hash = structure_hash_lookup[directory_hash_entry.hash_format]
+                        structure_hash = structure_hash_lookup.get(directory_hash_entry.hash_format)
 
                     found_hash_format = False
 
@@ -862,9 +867,9 @@ def verify_directory_hash_subcommand(
                         dir_structure_hash = None
 
                         if dir_content_hash_lookup:
-                            dir_content_hash = dir_content_hash_lookup[hash_format]
+                            dir_content_hash = dir_content_hash_lookup.get(hash_format)
                         if dir_structure_hash_lookup:
-                            dir_structure_hash = dir_structure_hash_lookup[hash_format]
+                            dir_structure_hash = dir_structure_hash_lookup.get(hash_format)
 
                         if dir_content_hash:
                             found_hash_format = True
